@@ -321,6 +321,20 @@ func LenSend[T any](ch chan<- T, site string) int {
 	return n
 }
 
+// ReadState is a scheduling point followed by a non-blocking read of state that changes together with
+// channel ch (ctx.Err() against ctx.Done()); the answer goes into the state key.
+func ReadState(ch <-chan struct{}, kind, site string, read func() uint64) {
+	s, mode := cur()
+	if mode != modeSched || ch == nil {
+		read()
+		return
+	}
+	ci := s.chanInfo(rchanPtr(ch), "chan", ch)
+	s.point(&Op{Kind: kind, Obj: &ci.obj, Site: site})
+	v := read()
+	s.event(evChanLen+1<<40+v<<16, &ci.obj, false)
+}
+
 // CloseSend is Close for send-only channel values.
 func CloseSend[T any](ch chan<- T) {
 	s, mode := cur()
